@@ -763,6 +763,11 @@ class S3StorageBackend(StorageBackend):
         from .s3_consistency import with_s3_retry
 
         s3_prefix = self._get_s3_key(prefix)
+        # S3 matches Prefix as a raw string: "data" would also return "data2/..."
+        # and "database". Callers name a directory (GC decides what to delete
+        # from this listing), so confine the listing to keys under "<prefix>/".
+        if s3_prefix and not s3_prefix.endswith("/"):
+            s3_prefix += "/"
 
         def list_op() -> List[str]:
             result = []
